@@ -21,6 +21,17 @@ Definition t_acc (t : ntime) : val :=
   VTup [VInt (hour t); VInt (minute t); VInt (second t); VInt (nanosecond t);
         VInt (num_seconds_from_midnight t); val_of_bool pm; VInt h12].
 
+(** impl Timelike for NaiveDateTime: every accessor is [self.time.<accessor>()]; [hour12] and
+    [num_seconds_from_midnight] are the provided methods of src/traits.rs reading those accessors;
+    the setters are [self.time.with_x(v).map(|t| NaiveDateTime { time: t, ..*self })] *)
+Definition ndt_tacc (a : DateTime.ndt) : R val :=
+  let t := DateTime.nd_time a in
+  let '(pm, h12) := hour12 t in
+  let* hs := mul_u32 (hour t) 3600 in let* ms := mul_u32 (minute t) 60 in
+  let* hm := add_u32 hs ms in let* nsfm := add_u32 hm (second t) in
+  Val (VTup [VInt (hour t); VInt (minute t); VInt (second t); VInt (nanosecond t);
+             VInt nsfm; val_of_bool pm; VInt h12]).
+
 Definition run (op : bytes) (args : list val) : val :=
   let u32_3 (f : Z -> Z -> Z -> val) := match args with
      | [a; b; c] => match arg_u32 a, arg_u32 b, arg_u32 c with Some x, Some y, Some z => f x y z | _, _, _ => VBad end
@@ -83,4 +94,27 @@ Definition run (op : bytes) (args : list val) : val :=
     n_d (fun a d => val_of_R DateTime.enc_ndt (unwrap_r (DateTime.ndt_checked_add_signed a d)))
   else if op_is op "ndt.opsub" then
     n_d (fun a d => val_of_R DateTime.enc_ndt (unwrap_r (DateTime.ndt_checked_sub_signed a d)))
+  else if op_is op "ndt.tacc" then
+    match args with
+    | [a] => match DateTime.dec_ndt a with Some x => val_of_R (fun v => v) (ndt_tacc x) | None => VBad end
+    | _ => VBad end
+  else if op_is op "ndt.twith" then
+    match args with
+    | [VInt which; a; b] =>
+        match DateTime.dec_ndt a, arg_u32 b with
+        | Some x, Some v =>
+            if (0 <=? which) && (which <=? 3)
+            then val_of_R (val_of_option DateTime.enc_ndt) (DateTime.ndt_with (7 + which) x v) else VBad
+        | _, _ => VBad end
+    | _ => VBad end
+  (* the deprecated panicking constructors: expect(..) of the _opt forms *)
+  else if op_is op "t.phms" then u32_3 (fun h m s => val_of_R enc_time (unwrap_r (from_hms_opt h m s)))
+  else if op_is op "t.phms_milli" then u32_4 (fun h m s x => val_of_R enc_time (unwrap_r (from_hms_milli_opt h m s x)))
+  else if op_is op "t.phms_micro" then u32_4 (fun h m s x => val_of_R enc_time (unwrap_r (from_hms_micro_opt h m s x)))
+  else if op_is op "t.phms_nano" then u32_4 (fun h m s x => val_of_R enc_time (unwrap_r (from_hms_nano_opt h m s x)))
+  else if op_is op "t.pnsfm" then
+    match args with
+    | [a; b] => match arg_u32 a, arg_u32 b with
+                | Some s, Some n => val_of_R enc_time (unwrap (from_num_seconds_from_midnight_opt s n)) | _, _ => VBad end
+    | _ => VBad end
   else VErr B"NOOP".
